@@ -112,6 +112,12 @@ func (m *model) eval(i int) val {
 			f = m.evalRef(&n.arr[0], tS).s
 		}
 		return val{s: fFirst(i, f, len(n.arr))}
+	case kChkI:
+		v, _ := fChkI(i, nv(0).i)
+		return val{i: v}
+	case kChkS:
+		v, _ := fChkS(i, nv(0).s)
+		return val{s: v}
 	case kUntil:
 		for k := range n.arr {
 			if v := m.evalRef(&n.arr[k], tI).i; v&1 == 1 {
@@ -121,6 +127,20 @@ func (m *model) eval(i int) val {
 		return val{s: fUntil(i, -1, len(n.arr))}
 	}
 	panic("unknown kind")
+}
+
+// failed: does a from-scratch evaluation of node i end in an error of its own processor?
+func (m *model) failed(i int) bool {
+	n := &m.nodes[i]
+	switch n.kind {
+	case kChkI:
+		_, f := fChkI(i, m.evalRef(n.named[0], tI).i)
+		return f
+	case kChkS:
+		_, f := fChkS(i, m.evalRef(n.named[0], tS).s)
+		return f
+	}
+	return false
 }
 
 // readRefs returns the inputs that the processor of node i reads when it executes
